@@ -198,6 +198,9 @@ def gen_case(seed, tier):
         elif r < 0.97:
             ops.append({'op': 'pair', 'i': i, 'j': rng.randrange(len(pool)), 'switches': {},
                         'p_point': rng.choice([0.3, 1.0]), 'line_p': rng.choice([0, 0, 0.05])})
+        elif r < 0.975:
+            ops.append({'op': 'hammer', 'i': i, 'n': 130,
+                        'cls': rng.choice(['KeyboardInterrupt', 'UserBase', 'UserKwOnly', 'UGlomKwOnly'])})
         elif r < 0.99:
             # a registration on SOME OTHER Glommer: not a registration of this call's registry
             op = rng.choice(list(REG_HANDLERS))
@@ -400,6 +403,32 @@ def run_case(case, gen_rng=None):
                     # a BaseException injected into a collaborator must leave glom() unchanged
                     viols.append({'clause': 'abort-propagates', 'sig': 'abort-propagates/' + cls,
                                   'expected': cls, 'observed': canon.outcome(res, B.idmap, with_text=False)})
+        elif kind == 'hammer':
+            # the same call, aborted at its first collaborator point, many times over: whatever a failed
+            # call leaves behind must not add up (the calls after it are checked as always)
+            cls = op['cls']
+            hits = 0
+            for _ in range(op['n']):
+                n0 = len(k.log)
+                fired = []
+
+                def fg(task, site, nth, kind_, _f=fired):
+                    if not _f:
+                        _f.append(1)
+                        return {'cls': cls}
+                    return None
+                k.fault_gen = fg
+                k.faults = {}
+                do_call(op['i'], op['i'], check=False, opname='hammer')
+                k.fault_gen = None
+                k.faults = {}
+                del k.log[n0 + 50:]
+                if not fired:
+                    break
+                hits += 1
+            if hits:
+                st('hammered_calls', hits)
+                state_epoch += 1
         elif kind == 'linecrash':
             k.line_crash = {'at': k.ln + op['at'], 'exc': op['exc']}
             res = do_call(op['i'], op['i'], check=False, opname='linecrash')
